@@ -1,8 +1,9 @@
 #!/bin/bash
 # Rewrites /verif/evidence/<id>.json by running every quick check once, with
 # default settings, against the unchanged /repo (refuses to run otherwise).
-cd /repo && git diff --quiet || { echo "/repo has local changes"; exit 9; }
-cd "$(dirname "$0")"
+HERE=$(cd "$(dirname "$0")" && pwd)
+git -C /repo diff --quiet || { echo "/repo has local changes"; exit 9; }
+cd "$HERE"
 rc=0
 for p in $(python3 -c "import json;print(' '.join(c['property_id'] for c in json.load(open('MANIFEST.json'))['checks']))"); do
   ./check $p quick 2>&1 | grep -a -v "KNOWN-FINDING\|minimised" | tail -1
